@@ -173,9 +173,12 @@ type computerFunc = func(*ComputedStyle, pr.KnownProp, pr.CssProperty) pr.CssPro
 // backgroundImage computes lenghts in gradient background-image.
 func backgroundImage(computer *ComputedStyle, _ pr.KnownProp, _value pr.CssProperty) pr.CssProperty {
 	value := _value.(pr.Images)
+	out := make(pr.Images, len(value))
 	for i, image := range value {
 		switch gradient := image.(type) {
 		case pr.LinearGradient:
+			// the declared value is shared between elements: do not write into it
+			gradient.ColorStops = append(pr.ColorsStops(nil), gradient.ColorStops...)
 			for j, cl := range gradient.ColorStops {
 				if !cl.Position.IsNone() {
 					cl.Position = length_(computer, pr.DimOrS{Dimension: cl.Position}, -1, false).Dimension
@@ -184,6 +187,7 @@ func backgroundImage(computer *ComputedStyle, _ pr.KnownProp, _value pr.CssPrope
 			}
 			image = gradient
 		case pr.RadialGradient:
+			gradient.ColorStops = append(pr.ColorsStops(nil), gradient.ColorStops...)
 			for j, cl := range gradient.ColorStops {
 				if !cl.Position.IsNone() {
 					cl.Position = length_(computer, pr.DimOrS{Dimension: cl.Position}, -1, false).Dimension
@@ -197,9 +201,9 @@ func backgroundImage(computer *ComputedStyle, _ pr.KnownProp, _value pr.CssPrope
 			}
 			image = gradient
 		}
-		value[i] = image
+		out[i] = image
 	}
-	return value
+	return out
 }
 
 func centers(computer *ComputedStyle, value pr.Centers) pr.Centers {
